@@ -37,6 +37,7 @@ pub fn repo_op() -> impl Strategy<Value = Op> {
         1 => any::<u16>().prop_map(Op::CreateIgnored),
         1 => (any::<u16>(), any::<u16>(), any::<u16>()).prop_map(|(a, b, c)| Op::BigWrite(a, b, c)),
         2 => any::<u16>().prop_map(Op::TailEdit),
+        2 => any::<u16>().prop_map(Op::Rewrite),
     ]
 }
 
